@@ -242,6 +242,19 @@ def sign (sm : Int → Pt Nat → Pt Nat) (H : Option HashFn) (d k : Nat) (msg :
     let s := invE P.n k * (e + r * d) % P.n
     if r = 0 ∨ s = 0 then .error .zero else .ok (P.sigBytes r s)
 
+/-- `PrivateKey.SignForRecover(message, hFunc)` with the nonce `k`: `(v, r, s)` with the recovery information
+    `v = (x([k]G) div n)·2 + (y([k]G) mod 2)` -/
+def signRecover (sm : Int → Pt Nat → Pt Nat) (H : Option HashFn) (d k : Nat) (msg : Bytes) : Except Err (Nat × Nat × Nat) :=
+  match P.msgInt H msg with
+  | .error e => .error e
+  | .ok e =>
+    match sm (Int.ofNat k) P.G with
+    | none => .error .zero
+    | some (x, y) =>
+      let r := x % P.n
+      let s := invE P.n k * (e + r * d) % P.n
+      if r = 0 ∨ s = 0 then .error .zero else .ok ((x / P.n) * 2 + y % 2, r, s)
+
 /-- `[n]Q = O ∧ Q on the curve` -/
 def inSubgroup (sm : Int → Pt Nat → Pt Nat) (Q : Pt Nat) : Bool := P.E.onCurve Q && (sm (Int.ofNat P.n) Q).isNone
 
